@@ -4,7 +4,6 @@ CONSTANTS
   Late = {}
   NReq = 2
   Interrupts = TRUE
-  FuseFdEdge = FALSE
+  Mut = "none"
   UmountWaits = FALSE
 INVARIANTS TypeOK DeliveredOnce BufferIsRequest ExitWins NoneJustified NoLostWake NoLostReadiness ResultsAllowed NothingLost
-PROPERTIES WakeWorks UmountWorks Termination
